@@ -19,6 +19,7 @@ import (
 	"encoding/base64"
 	"encoding/json"
 	"reflect"
+	"strings"
 	"testing"
 	"unicode/utf8"
 
@@ -69,21 +70,9 @@ const fuzzID = "fuzz"
 
 // keyPipelineNilInstance: pipeline.Store.decode dereferences the embedded
 // *Instance of encodableInstance, which stays nil when the document is `null` or
-// an object without any Instance field (NOTES.md, finding F1).
-const keyPipelineNilInstance = prop + "/fuzz/init-panic/pipeline-document-without-instance-fields"
-
-// pipelineDocWithoutInstance recognises exactly that shape with encoding/json,
-// which allocates an embedded pointer under the same rule.
-func pipelineDocWithoutInstance(raw []byte) bool {
-	var d *struct {
-		*pipeline.Instance
-		Status int
-	}
-	if err := json.Unmarshal(raw, &d); err != nil {
-		return false
-	}
-	return d == nil || d.Instance == nil
-}
+// an object without any Instance field (NOTES.md, finding F1). Recognised by the
+// panicking frame.
+const keyPipelineNilInstance = prop + "/fuzz/init-panic/pipeline.Store.decode-nil-instance"
 
 // fuzzOne runs one document; it returns the violations (never calls t.Fatal so
 // that TestReplayC17 can use it as well).
@@ -94,18 +83,14 @@ func fuzzOne(entity string, raw []byte) (viol []violation, skipped string) {
 	if err := db.Set(ctx, prefix+fuzzID, append([]byte{}, raw...)); err != nil {
 		return nil, "db.Set failed"
 	}
-	if entity == "pipeline" && pipelineDocWithoutInstance(raw) && pbt.For(prop).IsKnown(keyPipelineNilInstance) {
-		pbt.For(prop).Exclude(keyPipelineNilInstance)
-		return nil, "known finding excluded"
-	}
 	s1 := newServices(db)
 	stage, err, panicked := s1.init(ctx)
 	if panicked {
 		key := prop + "/fuzz/init-panic/" + stage
-		if entity == "pipeline" && pipelineDocWithoutInstance(raw) {
+		if stage == "pipeline" && strings.Contains(err.Error(), "pipeline.(*Store).decode") && strings.Contains(err.Error(), "nil pointer dereference") {
 			key = keyPipelineNilInstance
 		}
-		return []violation{{key, "Init panics on a stored document: " + err.Error()}}, ""
+		return []violation{{key, "Init panics on a stored document: " + truncate(err.Error(), 1500)}}, ""
 	}
 	if err != nil {
 		return nil, "document rejected by Init"
@@ -211,4 +196,11 @@ func FuzzC17PipelineDoc(f *testing.F) {
 func FuzzC17ProcessorDoc(f *testing.F) {
 	fuzzSeeds(f, "processor")
 	f.Fuzz(fuzzBody("processor"))
+}
+
+func truncate(s string, n int) string {
+	if len(s) > n {
+		return s[:n] + "…"
+	}
+	return s
 }
